@@ -6,7 +6,8 @@ import numpy as np
 REPO = os.environ.get('QSC_REPO', '/repo')
 if REPO not in sys.path:
     sys.path.insert(0, REPO)
-import warnings
+import warnings, logging
+logging.getLogger('qsc').addHandler(logging.NullHandler())
 warnings.simplefilter('ignore')
 
 CAPTURE_FUNCS = {'init_axis', 'calculate_r2', 'calculate_r3', 'calculate_shear', 'calculate_r_singularity', 'mercier',
